@@ -761,6 +761,31 @@ def _loops_to_comprehensions(stmts: list[ast.stmt]) -> list[ast.stmt]:
     return out
 
 
+def _ifexp_statements(stmts: list[ast.stmt]) -> list[ast.stmt]:
+    """`x = a if c else b` is `if c: x = a` / `else: x = b` (and likewise for `return`): one spelling for both."""
+    out: list[ast.stmt] = []
+    for st in stmts:
+        for field in ("body", "orelse", "finalbody"):
+            sub = getattr(st, field, None)
+            if isinstance(sub, list) and sub and isinstance(sub[0], ast.stmt) and not isinstance(st, (ast.FunctionDef, ast.ClassDef)):
+                setattr(st, field, _ifexp_statements(sub))
+        if isinstance(st, ast.Try):
+            for h in st.handlers:
+                h.body = _ifexp_statements(h.body)
+        if isinstance(st, ast.Assign) and len(st.targets) == 1 and isinstance(st.targets[0], ast.Name) and isinstance(st.value, ast.IfExp):
+            v = st.value
+            new = ast.If(test=v.test, body=_ifexp_statements([ast.Assign(targets=[clone(st.targets[0])], value=v.body)]),
+                         orelse=_ifexp_statements([ast.Assign(targets=[clone(st.targets[0])], value=v.orelse)]))
+            out.append(ast.fix_missing_locations(ast.copy_location(new, st)))
+        elif isinstance(st, ast.Return) and isinstance(st.value, ast.IfExp):
+            v = st.value
+            new = ast.If(test=v.test, body=_ifexp_statements([ast.Return(value=v.body)]), orelse=_ifexp_statements([ast.Return(value=v.orelse)]))
+            out.append(ast.fix_missing_locations(ast.copy_location(new, st)))
+        else:
+            out.append(st)
+    return out
+
+
 def _normalise_loops(stmts: list[ast.stmt]) -> list[ast.stmt]:
     for st in stmts:
         for n in ast.walk(st):
@@ -843,6 +868,7 @@ class Signature:
         self.lenient = lenient
         fn = _strip(fn_node)
         fn.body = _loops_to_comprehensions(fn.body)
+        fn.body = _ifexp_statements(fn.body)
         fn.body = _normalise_loops(normalise_control(fn.body) or [ast.Pass()])
         ast.fix_missing_locations(fn)
         params = [a.arg for a in fn.args.args]
@@ -871,6 +897,7 @@ class Signature:
         flow = Flow(fi)
         loops = [n for n in ast.walk(fn) if isinstance(n, ast.For)]
         mapping: dict[str, str] = {}
+        per_loop: list[tuple[ast.For, dict[str, str]]] = []
         self.skeleton = []
         lvars = set()
         for l in loops:
@@ -891,15 +918,27 @@ class Signature:
             else:
                 it = flow.expand(l.iter, flow.node_for(l), stop=lvars)
                 ext = "in " + penv.atom_name(it)
-            for i, old in enumerate(tnames):
-                new = f"L<{ext}>" if len(tnames) == 1 else f"L<{ext}>#{i}"
-                if old in mapping and mapping[old] != new:
-                    if lenient:
-                        mapping[old] = old
-                        continue
-                    raise AnalysisError(f"kernel {fn.name}: loop variable {old} reused with a different extent")
-                mapping[old] = new
-        fn = _Rename(mapping).visit(fn)
+            per_loop.append((l, {old: (f"L<{ext}>" if len(tnames) == 1 else f"L<{ext}>#{i}") for i, old in enumerate(tnames)}))
+        # each loop names its own variable(s): the same source name used by two loops with different extents stays distinct
+        leaked = False
+        comp_bound: set[int] = set()
+        for cnode in ast.walk(fn):
+            if isinstance(cnode, (ast.ListComp, ast.SetComp, ast.DictComp, ast.GeneratorExp)):
+                bound = {n.id for g in cnode.generators for n in ast.walk(g.target) if isinstance(n, ast.Name)}
+                comp_bound |= {id(n) for n in ast.walk(cnode) if isinstance(n, ast.Name) and n.id in bound}
+        for l, m in sorted(per_loop, key=lambda x: -sum(1 for _ in ast.walk(x[0]))):
+            # outer loops first (bigger subtrees); inner loops then rename what is theirs
+            for name_, new_ in m.items():
+                inside = {id(n) for n in ast.walk(l)}
+                used_outside = any(isinstance(n, ast.Name) and n.id == name_ and id(n) not in inside and id(n) not in comp_bound and isinstance(n.ctx, ast.Load) and
+                                   not any(id(n) in {id(x) for x in ast.walk(o)} for o, _ in per_loop if o is not l) for n in ast.walk(fn))
+                if used_outside:
+                    leaked = True
+            _Rename(m).visit(l)
+            mapping.update(m)
+        if leaked and not lenient:
+            raise AnalysisError(f"kernel {fn.name}: a loop variable is read after its loop")
+        ast.fix_missing_locations(fn)
         # multi-definition locals by order of first binding
         fi = _fi(fn)
         flow = Flow(fi)
@@ -1116,7 +1155,7 @@ _DOMAIN_GUARD = __import__("re").compile(
     r"|cmp\[Is\]\([\w.]+, None\)"                                                                 # p is None
     r")$")
 _DOMAIN_GUARD_NEG = __import__("re").compile(
-    r"^ifnot (cmp\[Eq\]\((len\([\w.]+\)|[\w.]+\.size|[\w.]+\.shape\[\d\]), [\w.]+\)|cmp\[Eq\]\([\w.]+, (len\([\w.]+\)|[\w.]+\.size|[\w.]+\.shape\[\d\])\)|isinstance\([\w.]+, .*\)|callable\([\w.]+\)|cmp\[In\]\([\w.]+, \{.*\}\)|cmp\[Eq\]\((\d+, )?[\w.]+\.(ndim|dtype)(, [\w.']+)?\)|np\.isfinite\([\w.]+\))$")
+    r"^ifnot (cmp\[LtE,Lt\]\(-1\*[\w.]+\.ndim, .+, [\w.]+\.ndim\)|cmp\[Eq\]\((len\([\w.]+\)|[\w.]+\.size|[\w.]+\.shape\[\d\]), [\w.]+\)|cmp\[Eq\]\([\w.]+, (len\([\w.]+\)|[\w.]+\.size|[\w.]+\.shape\[\d\])\)|isinstance\([\w.]+, .*\)|callable\([\w.]+\)|cmp\[In\]\([\w.]+, \{.*\}\)|cmp\[Eq\]\((\d+, )?[\w.]+\.(ndim|dtype)(, [\w.']+)?\)|np\.isfinite\([\w.]+\))$")
 
 
 def _tolerate_domain_guards(act: "Signature", ref: "Signature") -> list[str]:
@@ -1156,7 +1195,13 @@ def _tolerate_domain_guards(act: "Signature", ref: "Signature") -> list[str]:
         else:
             new_facts.add((f[0], strip(f[1]), *f[2:]))
     act.facts = new_facts
-    act.skeleton = [strip(t) for t in act.skeleton]
+    sk = [strip(t) for t in act.skeleton]
+
+    def ctx_of(f):
+        return f[4] if f[0] == "set" else f[2] if f[0] in ("ret", "expr", "stmt") else f[1]
+    # a loop that contained nothing but such guards is gone with them
+    ref_sk = set(ref.skeleton)
+    act.skeleton = [t for t in sk if t in ref_sk or any(ctx_of(f)[:len(t)] == t for f in new_facts)]
     return sorted(extra)
 
 
